@@ -224,6 +224,23 @@ func newEnv(thorough bool) *env {
 	F("2.0^64", math.Ldexp(1, 64))
 	F("-2.0^64", -math.Ldexp(1, 64))
 	F("1e300", 1e300)
+	// integral floats far beyond 2^63 whose 53 mantissa bits are mixed (so that
+	// every 32-bit word of the equal int that the mantissa reaches is non-zero)
+	// together with the ints that equal them, in both signs
+	wide := []int{64, 80, 100}
+	if thorough {
+		wide = []int{64, 66, 70, 80, 84, 96, 100, 127, 200, 1000}
+	}
+	for _, k := range wide {
+		f := math.Ldexp(float64(0x1A5A5A5A5A5A5B), k-52)
+		n, _ := new(big.Float).SetFloat64(f).Int(nil)
+		F(fmt.Sprintf("0x1.A5A5A5A5A5A5Bp%d", k), f)
+		I(fmt.Sprintf("int(0x1.A5A5A5A5A5A5Bp%d)", k), n.String())
+		F(fmt.Sprintf("-0x1.A5A5A5A5A5A5Bp%d", k), -f)
+		I(fmt.Sprintf("-int(0x1.A5A5A5A5A5A5Bp%d)", k), "-"+n.String())
+	}
+	F("1e20", 1e20)
+	I("10^20", "100000000000000000000")
 	F("5e-324", 5e-324)
 	F("+inf", math.Inf(1))
 	F("-inf", math.Inf(-1))
